@@ -382,18 +382,19 @@ class FiniteDifference(ApproximationScheme):
             if vec is not None and idxs is not None:
                 vec.iadd(delta, idxs)
 
-        if total:
-            system.run_solve_nonlinear()
-            self._results_tmp[:] = system._outputs.asarray()
-        else:
-            system.run_apply_nonlinear()
-            self._results_tmp[:] = system._residuals.asarray()
-
-        system._residuals.set_val(self._starting_resids)
-
-        # save results and restore starting inputs/outputs
-        system._inputs.set_val(self._starting_ins)
-        system._outputs.set_val(self._starting_outs)
+        try:
+            if total:
+                system.run_solve_nonlinear()
+                self._results_tmp[:] = system._outputs.asarray()
+            else:
+                system.run_apply_nonlinear()
+                self._results_tmp[:] = system._residuals.asarray()
+        finally:
+            # restore the starting state, also when the perturbed evaluation raised (e.g. an
+            # AnalysisError): an aborted approximation must not leave the model perturbed.
+            system._residuals.set_val(self._starting_resids)
+            system._inputs.set_val(self._starting_ins)
+            system._outputs.set_val(self._starting_outs)
 
         return self._results_tmp
 
